@@ -886,6 +886,40 @@ template<class T> static void rot_quat(vf::Ctx& c, LD w, LD x, LD y, LD z, int c
 	note_worst(c, std::string("quaternion.") + tn, k.worst, k.tolv);
 }
 
+// relative rotation of two nearly equal (or equal) orientations, computed with the library's own quaternion product:
+// the result is a unit quaternion only up to rounding, so its w can be 1 + 1 ulp - still a (tiny) rotation
+template<class T> static void rot_relative(vf::Ctx& c)
+{
+	typedef asl::Vec3_<T> V; typedef asl::Quaternion_<T> Q; typedef asl::Matrix4_<T> M;
+	const char* tn = tname<T>();
+	LD q[4], l = 0;
+	for (int i = 0; i < 4; i++) { q[i] = gauss(c.rng); l += q[i] * q[i]; }
+	l = sqrtl(l);
+	Q a((T)(q[0] / l), (T)(q[1] / l), (T)(q[2] / l), (T)(q[3] / l));
+	int how = (int)c.rng.below(4);
+	LD mag = how == 0 ? 0 : powl(10, -(LD)c.rng.range(3, 12));
+	V tiny((T)(gauss(c.rng) * mag), (T)(gauss(c.rng) * mag), (T)(gauss(c.rng) * mag));
+	Q b = how == 0 ? a : (Q::fromAxisAngle(tiny) ^ a);
+	Q rel = b ^ a.conj();
+	// truth from the stored components of a and b, in long double
+	LD aw = a.w, ax = -(LD)a.x, ay = -(LD)a.y, az = -(LD)a.z, bw = b.w, bx = b.x, by = b.y, bz = b.z;
+	LD rw = bw * aw - bx * ax - by * ay - bz * az, rx = bw * ax + bx * aw + by * az - bz * ay, ry = bw * ay - bx * az + by * aw + bz * ax, rz = bw * az + bx * ay - by * ax + bz * aw;
+	LD rl = sqrtl(rw * rw + rx * rx + ry * ry + rz * rz);
+	RotCk k(c, tol<T>(), tn);
+	k.truth = rquat(rw / rl, rx / rl, ry / rl, rz / rl);
+	int pr = sizeof(T) == 4 ? 9 : 17;
+	k.whatf = [=]() { return vf::fmt("%s relative rotation b ^ a.conj() of orientations %s apart, result (w=%.*g, x=%.*g, y=%.*g, z=%.*g)", tn, how == 0 ? "0" : vf::fmt("about %.0Le rad", mag).c_str(), pr, (double)rel.w, pr, (double)rel.x, pr, (double)rel.y, pr, (double)rel.z); };
+	V v = rel.axisAngle();
+	if (!(v.x == v.x && v.y == v.y && v.z == v.z)) { c.desc(k.whatf()); c.fail(std::string("rt.relative-rotation.axisangle-not-a-number.") + tn, vf::fmt("axisAngle() = (%g, %g, %g)", (double)v.x, (double)v.y, (double)v.z)); }
+	CK(k, rv(v), "rt.relative-rotation.axisangle", "(b ^ a.conj()).axisAngle()");
+	M m = rel.matrix();
+	CK(k, rv(m.axisAngle()), "rt.relative-rotation.matrix-axisangle", "(b ^ a.conj()).matrix().axisAngle()");
+	T ang = rel.angle();
+	if (!(ang == ang)) { c.desc(k.whatf()); c.fail(std::string("rt.relative-rotation.angle-not-a-number.") + tn, "angle() is NaN"); }
+	if ((LD)rel.w > 1) c.count((std::string("rot.relative_w_above_1.") + tn).c_str());
+	c.count("rot.relative_rotations");
+}
+
 static std::vector<LD> angle_grid()
 {
 	std::vector<LD> A;
@@ -980,6 +1014,7 @@ static void mode_rot(vf::Ctx& c)
 		double key[4] = {(double)q[0], (double)q[1], (double)q[2], (double)q[3]};
 		c.distinct(vf::fnv(key, sizeof key));
 	}
+	if (!g_nd) for (int r = 0; r < 60; r++) { rot_relative<double>(c); rot_relative<float>(c); }
 	// Matrix3 2D rotation <-> angle
 	for (size_t ai = 0; ai < A.size(); ai++) {
 		double t = (double)A[ai];
